@@ -1,6 +1,6 @@
 use std::sync::Arc;
 
-use c16::program::{self, HoleSpec, Outcome, Place, SegSpec, Site, SiteKind, VSpec};
+use c16::program::{self, FlagSpec, HoleSpec, Outcome, Place, SegSpec, Site, SiteKind, VSpec};
 use c16::*;
 use serde::{Deserialize, Serialize};
 use vcore::serde_json;
@@ -208,21 +208,49 @@ fn vspec(safe: bool) -> BoxedStrategy<VSpec> {
     .boxed()
 }
 
+fn flag_spec() -> impl Strategy<Value = FlagSpec> {
+    // the fill is ':' in a fifth of the specs that have one; every other fill character is equally likely
+    let colon = program::FILLS.iter().position(|c| *c == ':').unwrap() as u8;
+    let fill = prop_oneof![2 => Just(None), 2 => Just(Some(colon)), 6 => (0u8..program::FILLS.len() as u8).prop_map(Some)];
+    (
+        fill,
+        prop_oneof![1 => Just(0u8), 3 => 1u8..4],
+        prop::bool::weighted(0.2),
+        prop::bool::weighted(0.15),
+        prop::bool::weighted(0.15),
+        prop_oneof![1 => Just(None), 5 => (0u8..=12).prop_map(Some)],
+        prop_oneof![4 => Just(None), 1 => (0u8..=6).prop_map(Some)],
+        prop_oneof![5 => Just(0u8), 2 => Just(1u8), 1 => 2u8..4],
+    )
+        .prop_map(|(fill, align, sign, alt, zero, width, precision, ty)| {
+            // a fill needs an alignment; a spec with nothing in it gets a width
+            let align = if fill.is_some() && align == 0 { 2 } else { align };
+            let fill = if align == 0 { None } else { fill };
+            let nothing = align == 0 && !sign && !alt && !zero && width.is_none() && precision.is_none() && ty == 0;
+            FlagSpec { fill, align, sign, alt, zero, width: if nothing { Some(3) } else { width }, precision, ty }
+        })
+}
+
 fn hole_spec(kind: SiteKind) -> BoxedStrategy<HoleSpec> {
-    let flags = prop_oneof![1 => Just(None), 1 => (0u8..program::FLAGS.len() as u8).prop_map(Some)];
+    // (index into the fixed FLAGS pool, structured spec)
+    let flags = prop_oneof![
+        3 => Just((None, None)),
+        1 => (0u8..program::FLAGS.len() as u8).prop_map(|f| (Some(f), None)),
+        4 => flag_spec().prop_map(|s| (None, Some(s))),
+    ];
     match kind {
         SiteKind::Tpl => (
-            vspec(false).prop_filter_map("no debug structs in tpl!", |v| if matches!(v, VSpec::D(_)) { Some(VSpec::I(7)) } else { Some(v) }),
+            vspec(false).prop_map(|v| if matches!(v, VSpec::D(_)) { VSpec::I(7) } else { v }),
             prop_oneof![Just(Place::Local), Just(Place::ExtraLocal)],
             flags,
         )
-            .prop_map(|(value, place, flags)| HoleSpec { value, place, flags })
+            .prop_map(|(value, place, (flags, spec))| HoleSpec { value, place, flags, spec })
             .boxed(),
         _ => prop_oneof![
             (vspec(true), Just(Place::Inline), flags.clone()),
             (vspec(false), prop_oneof![Just(Place::Local), Just(Place::Extra), Just(Place::ExtraLocal)], flags),
         ]
-        .prop_map(|(value, place, flags)| HoleSpec { value, place, flags })
+        .prop_map(|(value, place, (flags, spec))| HoleSpec { value, place, flags, spec })
         .boxed(),
     }
 }
@@ -259,7 +287,25 @@ fn check_site(case: &SiteCase, cx: &mut Cx, results: &std::collections::BTreeMap
         SiteKind::Evt => "site:evt!",
     });
     cx.class_if(text.contains('{') || text.contains('}'), "site:escaped-braces");
-    cx.class_if(holes.iter().any(|h| h.flags.is_some()), "site:format-flags");
+    cx.class_if(holes.iter().any(|h| h.flags_text().is_some()), "site:format-flags");
+    let fills: Vec<char> = holes.iter().filter_map(|h| h.spec.as_ref().and_then(|s| s.fill_char())).collect();
+    cx.class_if(fills.contains(&':'), "fmt:fill-colon");
+    // ... and the padding is visible: the width exceeds the value's plain display length
+    let plain_len = |v: &VSpec| match v {
+        VSpec::Str(s) | VSpec::OwnedString(s) => s.chars().count(),
+        VSpec::I(v) => v.to_string().len(),
+        VSpec::F(v) => v.to_string().len(),
+        VSpec::B(v) => v.to_string().len(),
+        VSpec::D(v) => format!("D({v})").len(),
+    };
+    cx.class_if(
+        holes.iter().any(|h| h.spec.as_ref().map_or(false, |s| s.fill_char() == Some(':') && s.width.map_or(false, |w| w as usize > plain_len(&h.value) + 1))),
+        "fmt:fill-colon-visible-padding",
+    );
+    cx.class_if(fills.iter().any(|c| "0#?+-.x<>^".contains(*c)), "fmt:fill-special");
+    cx.class_if(fills.iter().any(|c| !c.is_ascii()), "fmt:fill-non-ascii");
+    cx.class_if(holes.iter().any(|h| h.spec.as_ref().map_or(false, |s| s.ty % 4 >= 2)), "fmt:debug-hex-type");
+    cx.class_if(holes.iter().any(|h| h.spec.as_ref().map_or(false, |s| s.sign || s.alt || s.zero)), "fmt:sign-alt-zero");
     cx.class_if(holes.iter().any(|h| h.place == Place::Inline), "site:hole-with-expression");
     cx.class_if(holes.iter().any(|h| matches!(h.place, Place::Extra | Place::ExtraLocal)), "site:hole-bound-after-literal");
     cx.class_if(holes.iter().any(|h| matches!(h.value, VSpec::D(_))), "site:as_debug");
@@ -267,7 +313,7 @@ fn check_site(case: &SiteCase, cx: &mut Cx, results: &std::collections::BTreeMap
     cx.class_if(site.uses_escape_sequences(), "site:escape-sequence-in-literal");
     cx.class_if(holes.is_empty(), "site:no-holes");
     // non-trivial: at least one hole next to escaped braces, format flags or non-ASCII text
-    cx.nontrivial(!holes.is_empty() && (text.contains('{') || text.contains('}') || !text.is_ascii() || holes.iter().any(|h| h.flags.is_some())));
+    cx.nontrivial(!holes.is_empty() && (text.contains('{') || text.contains('}') || !text.is_ascii() || holes.iter().any(|h| h.flags_text().is_some())));
 
     let key = serde_json::to_string(site).unwrap();
     let outcome = match results.get(&key) {
@@ -330,6 +376,10 @@ fn main() {
             for c in ["site:format!", "site:tpl!", "site:evt!", "site:escaped-braces", "site:format-flags", "site:hole-with-expression", "site:hole-bound-after-literal", "site:non-ascii-text"] {
                 s.require(c, 8);
             }
+            // format specs whose fill is a character that means something elsewhere in the spec grammar
+            s.require("fmt:fill-colon", 4);
+            s.require("fmt:fill-colon-visible-padding", 2);
+            s.require("fmt:fill-special", 6);
 
             s.gen("eq-render-triples", s.n(1_200_000, 30_000_000), triple, check_triple);
 
